@@ -717,6 +717,42 @@ pub fn random_project(rng: &mut Rng, nfiles: usize, adversarial: bool) -> Value 
             let e = emit_expr(rng, &ev_names, &type_names, &locals, adversarial);
             body.push(wrap_emit(rng, e));
         }
+        // a name bound more than once (shadowing / rebinding in the same body): the payload has the type of the
+        // binding in force at the emit site
+        if rng.chance(1, 3) && type_names.len() >= 2 {
+            let a = rng.pick(&type_names).clone();
+            let mut b = rng.pick(&type_names).clone();
+            if b == a {
+                b = type_names.iter().find(|t| **t != a).cloned().unwrap_or(b);
+            }
+            let bind = |rng: &mut Rng, t: &str| -> Value {
+                if rng.chance(1, 2) {
+                    json!({"k": "let", "pat": "ident", "name": "msg_v", "init": {"k": "struct", "segs": [t]}})
+                } else {
+                    json!({"k": "let", "pat": "typed", "name": "msg_v", "ty": t, "init": {"k": "call", "func": {"k": "path", "segs": ["make"]}, "args": []}})
+                }
+            };
+            let use_it = |rng: &mut Rng, ev_names: &[&str]| -> Value {
+                let mut e = emit_expr(rng, ev_names, &[], &[], false);
+                let payload = match rng.below(3) {
+                    0 => json!({"k": "path", "segs": ["msg_v"]}),
+                    1 => json!({"k": "ref", "e": {"k": "path", "segs": ["msg_v"]}}),
+                    _ => json!({"k": "mcall", "recv": {"k": "path", "segs": ["msg_v"]}, "method": "clone", "args": []}),
+                };
+                if let Some(args) = e.get_mut("args").and_then(|x| x.as_array_mut()) {
+                    if let Some(last) = args.last_mut() {
+                        *last = payload;
+                    }
+                }
+                json!({"k": "expr", "e": {"k": "mcall", "recv": e, "method": "ok", "args": []}})
+            };
+            body.push(bind(rng, &a));
+            if rng.chance(1, 2) {
+                body.push(use_it(rng, &ev_names));
+            }
+            body.push(bind(rng, &b));
+            body.push(use_it(rng, &ev_names));
+        }
         body.push(json!({"k": "other", "text": "todo!()"}));
         let cmd_attr = *rng.pick(&["tauri::command", "tauri::command", "command", "tauri::command(rename_all = \"snake_case\")", "tauri::command(async)"]);
         let mut attrs = Vec::new();
@@ -733,6 +769,24 @@ pub fn random_project(rng: &mut Rng, nfiles: usize, adversarial: bool) -> Value 
         let f = rng.below(nfiles);
         items_per_file[f].push(json!({"k": "fn", "name": name, "attrs": attrs, "vis": rng.pick(&["pub", "", "pub(crate)"]),
             "async": rng.chance(1, 2), "params": params, "ret": ret, "body": body}));
+    }
+    // a dependency triangle with a transitive edge: TriA -> {TriB, TriC}, TriB -> TriC, reached through TriA first
+    // (dependency-first emission must not emit TriB before TriC)
+    if rng.chance(1, 3) {
+        let named = |n: &str| RTy::Named(n.to_string());
+        let der = "derive(Debug, Clone, Serialize, Deserialize)";
+        let fld = |n: &str, t: RTy| json!({"name": n, "vis": "pub", "ty": ty_json(&t), "attrs": []});
+        let fc = rng.below(nfiles);
+        items_per_file[fc].push(json!({"k": "struct", "name": "TriC", "attrs": [attr(der)], "shape": "named", "fields": [fld("leaf", RTy::Prim("i32".into()))]}));
+        let fb = rng.below(nfiles);
+        items_per_file[fb].push(json!({"k": "struct", "name": "TriB", "attrs": [attr(der)], "shape": "named",
+            "fields": [fld("inner", if rng.chance(1, 2) { named("TriC") } else { RTy::Vec(Box::new(named("TriC"))) })]}));
+        let fa = rng.below(nfiles);
+        items_per_file[fa].push(json!({"k": "struct", "name": "TriA", "attrs": [attr(der)], "shape": "named",
+            "fields": [fld("first", named("TriB")), fld("second", RTy::Vec(Box::new(named("TriC"))))]}));
+        let f = rng.below(nfiles);
+        items_per_file[f].push(json!({"k": "fn", "name": "load_tri", "attrs": [attr("tauri::command")], "vis": "pub", "async": false,
+            "params": [], "ret": ty_json(&named("TriA")), "body": [{"k": "other", "text": "todo!()"}]}));
     }
     // decoys: helper fns (may emit events), impl blocks and inline modules with command-looking fns, misc items
     for f in 0..nfiles {
